@@ -97,13 +97,12 @@ Proof.
         [apply afv_finite | apply asv_finite]; eapply Hnode; exact Eg.
 Qed.
 
-(* the typed path stores whatever the recogniser returns *)
-Theorem type_number_finite_partial c t st :
-  (forall v, nof_text N t = Some v -> nis_finite N v = true) ->
-  finite_store N st -> finite_store N (type_number N c t st).
+(* the typed path (after /repo 6e3cec0): a recognised value that is not finite is stored as text *)
+Theorem type_number_finite c t st : finite_store N st -> finite_store N (type_number N c t st).
 Proof.
-  intros Hv Hst. unfold type_number. destruct (nof_text N t) as [v|] eqn:E; [|exact Hst].
-  apply finite_set_cont; [exact Hst | cbn; apply Hv; reflexivity].
+  intro Hst. unfold type_number. destruct (nof_text N t) as [v|] eqn:E.
+  - destruct (nis_finite N v) eqn:Ef; apply finite_set_cont; try exact Hst; [cbn; exact Ef | reflexivity].
+  - apply finite_set_cont; [exact Hst | reflexivity].
 Qed.
 
 End Sink.
@@ -138,8 +137,10 @@ Definition wb_scalar : workbook (num:=option Z) := [(A1, CFormula (EBin OMul (EN
 Lemma scalar_guard_example :
   value_at (evaluate BOps [A1] wb_scalar) A1 = VErr ENUM.
 Proof. vm_compute. reflexivity. Qed.
-(* typing a number the recogniser turns into a non-finite value: "9999999" > zmax *)
-Lemma refuted_typed :
-  no_nonfinite_b BOps [A1] (store_of []) = true /\
-  no_nonfinite_b BOps [A1] (type_number BOps A1 [57;57;57;57;57;57;57] (store_of [])) = false.
-Proof. vm_compute. split; reflexivity. Qed.
+(* typing a number the recogniser turns into a non-finite value ("9999999" > zmax): stored as text (was: stored
+   as a non-finite number, finding F08, repaired by /repo 6e3cec0) *)
+Lemma typed_overflow_is_text :
+  cont (type_number BOps A1 [57;57;57;57;57;57;57] (store_of [])) A1 = CString [57;57;57;57;57;57;57] /\
+  no_nonfinite_b BOps [A1] (type_number BOps A1 [57;57;57;57;57;57;57] (store_of [])) = true /\
+  cont (type_number BOps A1 [57;57] (store_of [])) A1 = CNumber (Some 99).
+Proof. vm_compute. repeat split; reflexivity. Qed.
